@@ -208,7 +208,7 @@ func C12(x *Ctx, r *core.Result) {
 		// what is returned, case by case (a `return helper(…)` tail call is replaced by the helper's own returns)
 		cases := x.returnCases(fn, map[ssa.Value]*RX{}, 0, func(c *ssa.Call, args []*RX) bool {
 			// the null fallback itself: called with exactly (data, the reader's error)
-			return len(args) == 2 && args[0].isLeaf(data) && args[1].isLeaf(errEx)
+			return len(args) == 2 && ((args[0].isLeaf(data) && args[1].isLeaf(errEx)) || (args[1].isLeaf(data) && args[0].isLeaf(errEx)))
 		})
 		okB := true
 		helpers := map[*ssa.Function]bool{}
@@ -242,7 +242,7 @@ func C12(x *Ctx, r *core.Result) {
 				// must be results 0 and 1 of fallback(data, that error)
 				r0, r1 := rc.Results[0], rc.Results[1]
 				good := r0.Call != nil && r0.Call == r1.Call && r0.Idx == 0 && r1.Idx == 1 && r0.Call.Call.StaticCallee() != nil &&
-					x.W.InLib(r0.Call.Call.StaticCallee()) && len(r0.Args) == 2 && r0.Args[0].isLeaf(data) && r0.Args[1].isLeaf(errEx)
+					x.W.InLib(r0.Call.Call.StaticCallee()) && len(r0.Args) == 2 && ((r0.Args[0].isLeaf(data) && r0.Args[1].isLeaf(errEx)) || (r0.Args[1].isLeaf(data) && r0.Args[0].isLeaf(errEx)))
 				if !good {
 					r.Fail(b, key+":fallback", x.W.Pos(rc.Ret.Pos()), "on a reader error the function does not return the null fallback's results for (data, that error)")
 					okB = false
@@ -317,7 +317,15 @@ func (x *Ctx) checkFallback(r *core.Result, rs *core.RuleStat, fn *ssa.Function)
 		r.Fail(rs, key, x.W.Pos(fn.Pos()), "fallback does not take (data, origErr)")
 		return
 	}
+	// (data, origErr) in either order: the parameters are told apart by type
 	data, orig := fn.Params[0], fn.Params[1]
+	if isErrT(data.Type()) && isByteSliceT(orig.Type()) {
+		data, orig = orig, data
+	}
+	if !isByteSliceT(data.Type()) || !isErrT(orig.Type()) {
+		r.Fail(rs, key, x.W.Pos(fn.Pos()), "fallback does not take (data, origErr)")
+		return
+	}
 	var call *ssa.Call
 	for _, b := range fn.Blocks {
 		for _, ins := range b.Instrs {
